@@ -1,1 +1,972 @@
-From Verif Require Import Model.Speaker.
+(* C09: the speaker's announcements are a function of the current cluster state. *)
+From Coq Require Import List NArith Bool Lia.
+From Verif Require Import Model.Speaker Proofs.NetP Proofs.ElectP Proofs.BgpAdsP.
+Local Open Scope N_scope.
+
+Lemma ip_eq_dec (a b : ip) : {a = b} + {a <> b}.
+Proof. decide equality; apply N.eq_dec. Qed.
+
+Section S.
+Variable ev : env.
+Let me := en_me ev.
+
+(* ---------------------------------------------------------------- vocabulary *)
+Definition cfg_peers (c : option config) : list pcfg := match c with Some c => cf_peers c | None => [] end.
+Definition my_labels (nodes : list nodeinfo) : option (list (N * N)) :=
+  match find_node me nodes with Some n => Some (nd_labels n) | None => None end.
+(* the BGP controller is in a reachable state consistent with configuration and node labels *)
+Definition Bg (b : bstate) (c : option config) (nodes : list nodeinfo) : Prop :=
+  exists bevs, binv me bevs b /\ last_cfg bevs = cfg_peers c /\ last_labels me bevs = my_labels nodes.
+
+Definition mk_ent (adv : bool * list N) (x : ip) : l2ent := {| le_ip := x; le_all := fst adv; le_ifs := snd adv |}.
+
+Record Bk (st : sstate) : Prop := {
+  k_b : forall n, s_annb st n = false -> bs_ads (s_bgp st) n = None;
+  k_l : forall n, s_annl st n = false -> s_l2 st n = None;
+  k_none : forall n, s_ips st n = None -> s_annb st n = false /\ s_annl st n = false;
+  k_some : forall n, s_annb st n = false -> s_annl st n = false -> s_ips st n = None;
+  k_ips : forall n ents, s_l2 st n = Some ents ->
+            NoDup (map le_ip ents) /\ exists old, s_ips st n = Some old /\ forall e, In e ents -> In (le_ip e) old;
+  k_cfg : s_cfg st = None -> forall n, s_annb st n = false /\ s_annl st n = false;
+  k_bg : Bg (s_bgp st) (s_cfg st) (s_nodes st)
+}.
+
+(* everything about the other services is untouched *)
+Definition frame (name : N) (st st' : sstate) : Prop :=
+  s_cfg st' = s_cfg st /\ s_nodes st' = s_nodes st /\ s_spk st' = s_spk st /\
+  forall n, n <> name ->
+    s_annb st' n = s_annb st n /\ s_annl st' n = s_annl st n /\ s_ips st' n = s_ips st n /\
+    bs_ads (s_bgp st') n = bs_ads (s_bgp st) n /\ s_l2 st' n = s_l2 st n.
+
+Lemma frame_refl name st : frame name st st.
+Proof. unfold frame. auto 10. Qed.
+Lemma frame_trans name a b c : frame name a b -> frame name b c -> frame name a c.
+Proof.
+  intros [A1 [A2 [A3 A4]]] [B1 [B2 [B3 B4]]]. repeat split; try congruence;
+    destruct (A4 n H) as [? [? [? [? ?]]]]; destruct (B4 n H) as [? [? [? [? ?]]]]; congruence.
+Qed.
+
+(* ---------------------------------------------------------------- BGP controller facts *)
+Lemma sync_ads cr f b : bs_ads (sync_peers_gen cr f b) = bs_ads b.
+Proof. rewrite sync_unfold. cbv zeta. destruct (_ || _); reflexivity. Qed.
+Lemma bset_ads name ips advs b n :
+  bs_ads (bset_balancer me name ips advs b) n = if n =? name then Some (make_ads me ips advs) else bs_ads b n.
+Proof. reflexivity. Qed.
+Lemma bdelete_ads name b n : bs_ads (bdelete name b) n = if n =? name then None else bs_ads b n.
+Proof.
+  unfold bdelete. destruct (bs_ads b name) eqn:E; cbn; unfold upd.
+  - reflexivity.
+  - destruct (N.eqb_spec n name); congruence.
+Qed.
+Lemma bcfg_ads cfgs b : bs_ads (bset_config_gen true cfgs b) = bs_ads b.
+Proof. unfold bset_config_gen. destruct (diff_peers cfgs (bs_peers b)). rewrite sync_ads. reflexivity. Qed.
+Lemma bnode_ads n l b : bs_ads (bset_node_gen true me n l b) = bs_ads b.
+Proof.
+  unfold bset_node_gen. destruct (negb (n =? me)); [reflexivity|].
+  destruct (bs_labels b); [destruct (lbl_eqb _ _); [reflexivity|]|]; rewrite sync_ads; reflexivity.
+Qed.
+
+Lemma Bg_step b c nodes e :
+  Bg b c nodes ->
+  match e with BCfg _ | BNode _ _ => False | _ => True end ->
+  Bg (bstep me b e) c nodes.
+Proof.
+  intros [bevs [I [H1 H2]]] He. exists (bevs ++ [e]). split; [apply binv_step; exact I|].
+  rewrite last_cfg_snoc, last_labels_snoc. destruct e; try contradiction; auto.
+Qed.
+Lemma Bg_set b c nodes name ips advs : Bg b c nodes -> Bg (bset_balancer me name ips advs b) c nodes.
+Proof. intros H. apply (Bg_step b c nodes (BSet name ips advs) H I). Qed.
+Lemma Bg_del b c nodes name : Bg b c nodes -> Bg (bdelete name b) c nodes.
+Proof. intros H. apply (Bg_step b c nodes (BDel name) H I). Qed.
+
+(* ---------------------------------------------------------------- announcer facts *)
+Lemma ann_put_spec e l :
+  NoDup (map le_ip l) ->
+  NoDup (map le_ip (ann_put e l)) /\
+  forall e', In e' (ann_put e l) <-> e' = e \/ (In e' l /\ le_ip e' <> le_ip e).
+Proof.
+  induction l as [|x r IH]; intros Hnd; cbn [ann_put].
+  - split; [cbn; constructor; [tauto|constructor]|]. intros e'. cbn. intuition.
+  - inversion Hnd as [|? ? Hx Hr]; subst. destruct (ip_eqb (le_ip x) (le_ip e)) eqn:E.
+    + apply ip_eqb_eq in E. split.
+      * cbn. rewrite <- E. exact Hnd.
+      * intros e'. cbn. split.
+        -- intros [H|H]; [left; auto|right]. split; [right; exact H|]. intros Heq. apply Hx. rewrite E, <- Heq. apply in_map. exact H.
+        -- intros [H|[[H|H] Hne]]; [left; auto| |right; exact H]. subst. congruence.
+    + assert (Hne : le_ip x <> le_ip e) by (intros H; apply ip_eqb_eq in H; congruence).
+      destruct (IH Hr) as [IH1 IH2]. split.
+      * cbn. constructor; [|exact IH1]. intros Hin. apply in_map_iff in Hin. destruct Hin as [y [Hy Hin]].
+        apply IH2 in Hin. destruct Hin as [->|[Hin _]]; [congruence|]. apply Hx. rewrite <- Hy. apply in_map. exact Hin.
+      * intros e'. cbn. rewrite IH2. split.
+        -- intros [H|[H|[H1 H2]]]; [subst; right; auto|left; auto|right; auto].
+        -- intros [H|[[H|H] Hn]]; [right; left; auto|left; auto|right; right; auto].
+Qed.
+
+Definition cur (l2 : N -> option (list l2ent)) (name : N) : list l2ent := match l2 name with Some l => l | None => [] end.
+
+Lemma l2_set_spec name p ips : forall l2,
+  match_ifs (ip_adv_for me (pl_l2 p)) (en_ifs ev) = true ->
+  NoDup (map le_ip (cur l2 name)) ->
+  let adv := ip_adv_for me (pl_l2 p) in
+  let l2' := l2_set_balancer ev name ips p l2 in
+  (forall n, n <> name -> l2' n = l2 n) /\
+  NoDup (map le_ip (cur l2' name)) /\
+  (ips <> [] -> l2' name <> None) /\
+  (ips = [] -> l2' name = l2 name) /\
+  forall e, In e (cur l2' name) <->
+            (exists x, In x ips /\ e = mk_ent adv x) \/ (In e (cur l2 name) /\ forall x, In x ips -> le_ip e <> x).
+Proof.
+  unfold l2_set_balancer. fold me. intros l2 Hm. rewrite Hm. cbv zeta.
+  revert l2. induction ips as [|x r IH]; intros l2 Hnd; cbn [fold_left].
+  - split; [auto|]. split; [exact Hnd|]. split; [congruence|]. split; [auto|]. intros e. split.
+    + intros H. right. split; [exact H|]. intros x [].
+    + intros [[x [[] _]]|[H _]]; exact H.
+  - set (e0 := {| le_ip := x; le_all := fst (ip_adv_for me (pl_l2 p)); le_ifs := snd (ip_adv_for me (pl_l2 p)) |}).
+    set (l2a := ann_set l2 name e0).
+    assert (Hcur : cur l2a name = ann_put e0 (cur l2 name)).
+    { unfold cur, l2a, ann_set. rewrite upd_eq. reflexivity. }
+    destruct (ann_put_spec e0 (cur l2 name) Hnd) as [P1 P2].
+    assert (Hnd' : NoDup (map le_ip (cur l2a name))) by (rewrite Hcur; exact P1).
+    destruct (IH l2a Hnd') as [I1 [I2 [I3 [I4 I5]]]]. split; [|split; [|split; [|split; [|intros e; split]]]].
+    + intros n Hn. rewrite (I1 n Hn). unfold l2a, ann_set. apply upd_neq. exact Hn.
+    + exact I2.
+    + intros _. destruct r as [|y r'].
+      * rewrite (I4 eq_refl). unfold l2a, ann_set. rewrite upd_eq. discriminate.
+      * apply I3. discriminate.
+    + discriminate.
+    + intros H. apply I5 in H. destruct H as [[y [Hy ->]]|[H Hall]].
+      * left. exists y. split; [right; exact Hy|reflexivity].
+      * rewrite Hcur in H. apply P2 in H. destruct H as [->|[H Hne]].
+        -- left. exists x. split; [left; reflexivity|reflexivity].
+        -- right. split; [exact H|]. intros y [<-|Hy]; [exact Hne|apply Hall; exact Hy].
+    + intros [[y [[<-|Hy] ->]]|[H Hall]].
+      * apply I5. destruct (in_dec ip_eq_dec x r) as [Hin|Hnin].
+        -- left. exists x. split; [exact Hin|reflexivity].
+        -- right. split.
+           ++ rewrite Hcur. apply P2. left. reflexivity.
+           ++ intros y Hy. cbn. intros <-. contradiction.
+      * apply I5. left. exists y. auto.
+      * apply I5. right. split.
+        -- rewrite Hcur. apply P2. right. split; [exact H|]. cbn. apply Hall. left. reflexivity.
+        -- intros y Hy. apply Hall. right. exact Hy.
+Qed.
+
+(* ---------------------------------------------------------------- deleteBalancerProtocol *)
+Ltac sp := cbn [s_cfg s_nodes s_spk s_annb s_annl s_ips s_ipkeys s_bgp s_l2
+                set_cfg set_nodes set_spk set_annb set_annl set_ips set_bgp set_l2 ann] in *.
+
+Lemma l2_delete_spec name l2 n : l2_delete name l2 n = if n =? name then None else l2 n.
+Proof.
+  unfold l2_delete. destruct (l2 name) eqn:E; unfold upd.
+  - reflexivity.
+  - destruct (N.eqb_spec n name); congruence.
+Qed.
+
+Definition other_same (P : proto) (name : N) (st st' : sstate) : Prop :=
+  match P with
+  | PBgp => s_annl st' name = s_annl st name /\ s_l2 st' name = s_l2 st name
+  | PL2 => s_annb st' name = s_annb st name /\ bs_ads (s_bgp st') name = bs_ads (s_bgp st) name
+  end.
+
+Lemma del_proto_spec P name st :
+  Bk st ->
+  Bk (del_proto P name st) /\ frame name st (del_proto P name st) /\ ann P (del_proto P name st) name = false /\
+  other_same P name st (del_proto P name st) /\
+  (s_ips (del_proto P name st) name = s_ips st name \/ s_ips (del_proto P name st) name = None).
+Proof.
+  intros [K1 K2 K3 K3' K4 K5 K6]. unfold del_proto. destruct (ann P st name) eqn:Ea; cbn [negb].
+  2:{ split; [constructor; assumption|]. split; [apply frame_refl|]. split; [exact Ea|]. split; [destruct P; split; reflexivity|left; reflexivity]. }
+  destruct P; sp.
+  - (* BGP *)
+    rewrite upd_eq. cbn [orb]. destruct (s_annl st name) eqn:El; sp.
+    + split; [|split; [|split; [apply upd_eq|split; [split; reflexivity|first [left; reflexivity|right; apply upd_eq]]]]].
+      * constructor; sp.
+        -- intros n. rewrite bdelete_ads. unfold upd. destruct (n =? name); [reflexivity|apply K1].
+        -- exact K2.
+        -- intros n H. destruct (K3 n H) as [A B]. split; [|exact B]. unfold upd. destruct (n =? name); [reflexivity|exact A].
+        -- intros n. unfold upd. destruct (N.eqb_spec n name) as [->|Hne]; [congruence|apply K3'].
+        -- exact K4.
+        -- intros H n. destruct (K5 H n) as [A B]. split; [|exact B]. unfold upd. destruct (n =? name); [reflexivity|exact A].
+        -- apply Bg_del. exact K6.
+      * unfold frame; sp. split; [reflexivity|]. split; [reflexivity|]. split; [reflexivity|]. intros n H.
+        rewrite bdelete_ads. unfold upd. destruct (N.eqb_spec n name); [contradiction|]. auto.
+    + split; [|split; [|split; [apply upd_eq|split; [split; reflexivity|first [left; reflexivity|right; apply upd_eq]]]]].
+      * constructor; sp.
+        -- intros n. rewrite bdelete_ads. unfold upd. destruct (n =? name); [reflexivity|apply K1].
+        -- exact K2.
+        -- intros n. unfold upd. destruct (N.eqb_spec n name) as [->|Hne]; [intros _; split; [reflexivity|exact El]|].
+           intros H. destruct (K3 n H) as [A B]. split; assumption.
+        -- intros n. unfold upd. destruct (N.eqb_spec n name) as [->|Hne]; [reflexivity|apply K3'].
+        -- intros n ents H. destruct (N.eqb_spec n name) as [->|Hne]; [rewrite (K2 name El) in H; discriminate|].
+           unfold upd. destruct (N.eqb_spec n name); [contradiction|]. apply K4. exact H.
+        -- intros H n. destruct (K5 H n) as [A B]. split; [|exact B]. unfold upd. destruct (n =? name); [reflexivity|exact A].
+        -- apply Bg_del. exact K6.
+      * unfold frame; sp. split; [reflexivity|]. split; [reflexivity|]. split; [reflexivity|]. intros n H.
+        rewrite bdelete_ads. unfold upd. destruct (N.eqb_spec n name); [contradiction|]. auto.
+  - (* layer 2 *)
+    rewrite upd_eq. rewrite orb_false_r. destruct (s_annb st name) eqn:Eb; sp.
+    + split; [|split; [|split; [apply upd_eq|split; [split; reflexivity|first [left; reflexivity|right; apply upd_eq]]]]].
+      * constructor; sp.
+        -- exact K1.
+        -- intros n. rewrite l2_delete_spec. unfold upd. destruct (n =? name); [reflexivity|apply K2].
+        -- intros n H. destruct (K3 n H) as [A B]. split; [exact A|]. unfold upd. destruct (n =? name); [reflexivity|exact B].
+        -- intros n. unfold upd. destruct (N.eqb_spec n name) as [->|Hne]; [congruence|apply K3'].
+        -- intros n ents. rewrite l2_delete_spec. destruct (n =? name); [discriminate|apply K4].
+        -- intros H n. destruct (K5 H n) as [A B]. split; [exact A|]. unfold upd. destruct (n =? name); [reflexivity|exact B].
+        -- exact K6.
+      * unfold frame; sp. split; [reflexivity|]. split; [reflexivity|]. split; [reflexivity|]. intros n H.
+        rewrite l2_delete_spec. unfold upd. destruct (N.eqb_spec n name); [contradiction|]. auto.
+    + split; [|split; [|split; [apply upd_eq|split; [split; reflexivity|first [left; reflexivity|right; apply upd_eq]]]]].
+      * constructor; sp.
+        -- exact K1.
+        -- intros n. rewrite l2_delete_spec. unfold upd. destruct (n =? name); [reflexivity|apply K2].
+        -- intros n. unfold upd. destruct (N.eqb_spec n name) as [->|Hne]; [intros _; split; [exact Eb|reflexivity]|].
+           intros H. destruct (K3 n H) as [A B]. split; assumption.
+        -- intros n. unfold upd. destruct (N.eqb_spec n name) as [->|Hne]; [reflexivity|apply K3'].
+        -- intros n ents. rewrite l2_delete_spec. unfold upd. destruct (N.eqb_spec n name); [discriminate|apply K4].
+        -- intros H n. destruct (K5 H n) as [A B]. split; [exact A|]. unfold upd. destruct (n =? name); [reflexivity|exact B].
+        -- exact K6.
+      * unfold frame; sp. split; [reflexivity|]. split; [reflexivity|]. split; [reflexivity|]. intros n H.
+        rewrite l2_delete_spec. unfold upd. destruct (N.eqb_spec n name); [contradiction|]. auto.
+Qed.
+
+Lemma del_all_spec name st :
+  Bk st ->
+  Bk (del_all name st) /\ frame name st (del_all name st) /\
+  s_annb (del_all name st) name = false /\ s_annl (del_all name st) name = false /\ s_ips (del_all name st) name = None.
+Proof.
+  intros B. unfold del_all.
+  destruct (del_proto_spec PBgp name st B) as [B1 [F1 [A1 [[O1 O1'] _]]]].
+  destruct (del_proto_spec PL2 name _ B1) as [B2 [F2 [A2 [[O2 O2'] _]]]]. sp.
+  assert (Hb : s_annb (del_proto PL2 name (del_proto PBgp name st)) name = false) by congruence.
+  split; [exact B2|]. split; [eapply frame_trans; eassumption|]. split; [exact Hb|]. split; [exact A2|].
+  apply (k_some _ B2); assumption.
+Qed.
+
+(* ---------------------------------------------------------------- handleService *)
+Definition should_of (P : proto) (st : sstate) (p : pool) (s : svc) (ips : list ip) : bool :=
+  match P with
+  | PBgp => bgp_should ev (s_nodes st) p s
+  | PL2 => l2_should ev (s_nodes st) (s_spk st) p s ips
+  end.
+Definition target (P : proto) (name : N) (ips : list ip) (p : pool) (st' : sstate) : Prop :=
+  match P with
+  | PBgp => bs_ads (s_bgp st') name = Some (make_ads me ips (pl_bgp p))
+  | PL2 => exists ents, s_l2 st' name = Some ents /\
+             forall e, In e ents <-> exists x, In x ips /\ e = mk_ent (ip_adv_for me (pl_l2 p)) x
+  end.
+Definition pre_ips (name : N) (ips : list ip) (st : sstate) : Prop :=
+  forall old, s_ips st name = Some old -> forall x, In x ips <-> In x old.
+
+Lemma handle_spec P name ips s p st :
+  Bk st -> pre_ips name ips st -> ips <> [] -> s_cfg st <> None ->
+  (P = PL2 -> should_of P st p s ips = true -> match_ifs (ip_adv_for me (pl_l2 p)) (en_ifs ev) = true) ->
+  let st' := handle ev P name ips s p st in
+  Bk st' /\ frame name st st' /\ pre_ips name ips st' /\ ann P st' name = should_of P st p s ips /\
+  (should_of P st p s ips = true -> target P name ips p st') /\ other_same P name st st'.
+Proof.
+  intros B Hpre Hne Hcfg Hifs. cbv zeta. unfold handle. fold (should_of P st p s ips).
+  destruct (should_of P st p s ips) eqn:Es.
+  2:{ destruct (del_proto_spec P name st B) as [B1 [F1 [A1 [O1 I1]]]].
+      split; [exact B1|]. split; [exact F1|]. split; [|split; [exact A1|split; [discriminate|exact O1]]].
+      intros old Ho. destruct I1 as [I1|I1]; [apply Hpre; congruence|congruence]. }
+  destruct B as [K1 K2 K3 K3' K4 K5 K6]. destruct P; unfold target, other_same; sp; fold me.
+  - (* BGP *)
+    destruct (s_annb st name) eqn:Ea; sp.
+    + split; [|split; [|split; [exact Hpre|split; [exact Ea|split; [intros _; rewrite bset_ads, N.eqb_refl; reflexivity|split; reflexivity]]]]].
+      * constructor; sp; auto.
+        -- intros n H. rewrite bset_ads. destruct (N.eqb_spec n name); [congruence|apply K1; exact H].
+        -- apply Bg_set. exact K6.
+      * unfold frame; sp. repeat split; try reflexivity. rewrite bset_ads. destruct (N.eqb_spec n name); congruence.
+    + split; [|split; [|split; [|split; [apply upd_eq|split; [intros _; rewrite bset_ads, N.eqb_refl; reflexivity|split; reflexivity]]]]].
+      * constructor; sp.
+        -- intros n. unfold upd. rewrite bset_ads. destruct (N.eqb_spec n name); [discriminate|apply K1].
+        -- exact K2.
+        -- intros n. unfold upd. destruct (N.eqb_spec n name); [discriminate|apply K3].
+        -- intros n. unfold upd. destruct (N.eqb_spec n name); [discriminate|apply K3'].
+        -- intros n ents H. destruct (K4 n ents H) as [Hnd [old [Ho Hin]]]. split; [exact Hnd|].
+           unfold upd. destruct (N.eqb_spec n name) as [->|Hn]; [|exists old; auto].
+           exists ips. split; [reflexivity|]. intros e He. apply (Hpre old Ho). apply Hin. exact He.
+        -- intros H. contradiction.
+        -- apply Bg_set. exact K6.
+      * unfold frame; sp. split; [reflexivity|]. split; [reflexivity|]. split; [reflexivity|]. intros n H.
+        rewrite bset_ads. unfold upd. destruct (N.eqb_spec n name); [contradiction|]. auto.
+      * intros old. sp. rewrite upd_eq. intros [= <-]. tauto.
+  - (* layer 2 *)
+    specialize (Hifs eq_refl eq_refl).
+    assert (Hnd : NoDup (map le_ip (cur (s_l2 st) name))).
+    { unfold cur. destruct (s_l2 st name) as [ents|] eqn:E; [apply (K4 name ents E)|constructor]. }
+    destruct (l2_set_spec name p ips (s_l2 st) Hifs Hnd) as [L1 [L2 [L3 [_ L5]]]].
+    set (l2' := l2_set_balancer ev name ips p (s_l2 st)) in *.
+    destruct (l2' name) as [ents'|] eqn:E'; [|exfalso; apply (L3 Hne); reflexivity].
+    assert (Hents : forall e, In e ents' <-> exists x, In x ips /\ e = mk_ent (ip_adv_for me (pl_l2 p)) x).
+    { intros e. unfold cur in L5. rewrite E' in L5. rewrite L5. split; [|intros H; left; exact H].
+      intros [H|[H Hall]]; [exact H|exfalso].
+      destruct (s_l2 st name) as [ents|] eqn:E; [|destruct H].
+      destruct (K4 name ents E) as [_ [old [Ho Hin]]]. apply (Hall (le_ip e)); [|reflexivity].
+      apply (Hpre old Ho). apply Hin. exact H. }
+    assert (Hnd' : NoDup (map le_ip ents')) by (unfold cur in L2; rewrite E' in L2; exact L2).
+    destruct (s_annl st name) eqn:Ea; sp.
+    + split; [|split; [|split; [exact Hpre|split; [exact Ea|split; [intros _; exists ents'; split; [exact E'|exact Hents]|split; reflexivity]]]]].
+      * constructor; sp; auto.
+        -- intros n H. destruct (N.eqb_spec n name) as [->|Hn]; [congruence|]. rewrite (L1 n Hn). apply K2. exact H.
+        -- intros n ents H. destruct (N.eqb_spec n name) as [->|Hn]; [|rewrite (L1 n Hn) in H; apply K4; exact H].
+           rewrite E' in H. injection H as <-. split; [exact Hnd'|].
+           destruct (s_ips st name) as [old|] eqn:Eo; [|destruct (K3 name Eo); congruence].
+           exists old. split; [reflexivity|]. intros e He. apply Hents in He. destruct He as [x [Hx ->]]. cbn. apply (Hpre old Eo). exact Hx.
+      * unfold frame; sp. repeat split; try reflexivity. apply L1. exact H.
+    + split; [|split; [|split; [|split; [apply upd_eq|split; [intros _; exists ents'; split; [exact E'|exact Hents]|split; reflexivity]]]]].
+      * constructor; sp.
+        -- exact K1.
+        -- intros n. unfold upd. destruct (N.eqb_spec n name) as [->|Hn]; [discriminate|]. rewrite (L1 n Hn). apply K2.
+        -- intros n. unfold upd. destruct (N.eqb_spec n name); [discriminate|apply K3].
+        -- intros n. unfold upd. destruct (N.eqb_spec n name); [discriminate|apply K3'].
+        -- intros n ents H. unfold upd. destruct (N.eqb_spec n name) as [->|Hn]; [|rewrite (L1 n Hn) in H; apply K4; exact H].
+           rewrite E' in H. injection H as <-. split; [exact Hnd'|]. exists ips. split; [reflexivity|].
+           intros e He. apply Hents in He. destruct He as [x [Hx ->]]. exact Hx.
+        -- intros H. contradiction.
+        -- exact K6.
+      * unfold frame; sp. split; [reflexivity|]. split; [reflexivity|]. split; [reflexivity|]. intros n H.
+        unfold upd. destruct (N.eqb_spec n name); [contradiction|]. rewrite (L1 n H). auto.
+      * intros old. sp. rewrite upd_eq. intros [= <-]. tauto.
+Qed.
+
+(* ---------------------------------------------------------------- controller.SetBalancer *)
+Lemma nodup_ips_spec l : nodup_ips l = true -> NoDup l.
+Proof.
+  induction l as [|x r IH]; cbn; [constructor|]. rewrite andb_true_iff, negb_true_iff. intros [H1 H2].
+  constructor; [|apply IH; exact H2]. intros Hin.
+  assert (existsb (ip_eqb x) r = true); [|congruence]. apply existsb_exists. exists x. split; [exact Hin|apply ip_eqb_eq; reflexivity].
+Qed.
+
+Lemma compare_ips_spec a b : compare_ips a b = true -> NoDup a -> forall x, In x a <-> In x b.
+Proof.
+  unfold compare_ips. rewrite andb_true_iff, N.eqb_eq. intros [Hl Hs] Hnd.
+  assert (Hincl : incl a b).
+  { intros x Hx. rewrite forallb_forall in Hs. specialize (Hs x Hx). apply existsb_exists in Hs.
+    destruct Hs as [y [Hy He]]. apply ip_eqb_eq in He. subst. exact Hy. }
+  assert (Hlen : (length b <= length a)%nat) by lia.
+  pose proof (NoDup_length_incl Hnd Hlen Hincl) as Hincl'.
+  intros x. split; [apply Hincl|apply Hincl'].
+Qed.
+
+Definition plan (c : option config) (os : option svc) : option (svc * list ip * pool) :=
+  match os with
+  | Some s =>
+    if sv_lb s then
+      match c with
+      | Some cfg => match sv_ips s with
+                    | Some (x :: r) => match pool_for cfg (x :: r) with Some p => Some (s, x :: r, p) | None => None end
+                    | _ => None
+                    end
+      | None => None
+      end
+    else None
+  | None => None
+  end.
+
+(* the service [name] is announced exactly as the current state of the cluster prescribes *)
+Definition nf_name (st : sstate) (name : N) (os : option svc) : Prop :=
+  match plan (s_cfg st) os with
+  | None => s_annb st name = false /\ s_annl st name = false
+  | Some (s, ips, p) =>
+      s_annb st name = should_of PBgp st p s ips /\ s_annl st name = should_of PL2 st p s ips /\
+      (should_of PBgp st p s ips = true -> target PBgp name ips p st) /\
+      (should_of PL2 st p s ips = true -> target PL2 name ips p st)
+  end.
+
+Lemma should_of_frame name a b P p s ips : frame name a b -> should_of P b p s ips = should_of P a p s ips.
+Proof. intros [_ [H2 [H3 _]]]. unfold should_of. rewrite H2, H3. reflexivity. Qed.
+
+Lemma l2_should_selects nodes spk p s ips :
+  l2_should ev nodes spk p s ips = true -> existsb (fun a => mem me (la_nodes a)) (pl_l2 p) = true.
+Proof.
+  unfold l2_should. destruct ips as [|x r]; [discriminate|]. unfold decide. rewrite !andb_true_iff.
+  intros [[_ H] _]. unfold pool_matches, elect_view in H. cbn [v_advs] in H. fold me in H.
+  apply existsb_exists in H. destruct H as [l [Hl Hm]]. apply in_map_iff in Hl. destruct Hl as [a [<- Ha]].
+  apply existsb_exists. exists a. auto.
+Qed.
+
+Definition cfg_good (st : sstate) : Prop := forall c, s_cfg st = Some c -> cfg_ifs_ok ev c = true.
+
+Lemma set_balancer_spec name os st :
+  Bk st -> cfg_good st -> (forall s, os = Some s -> svc_ok s = true) ->
+  Bk (set_balancer ev name os st) /\ frame name st (set_balancer ev name os st) /\ nf_name (set_balancer ev name os st) name os.
+Proof.
+  intros B Hgood Hsvc.
+  assert (Hdel : forall os', plan (s_cfg st) os' = None ->
+            Bk (del_all name st) /\ frame name st (del_all name st) /\ nf_name (del_all name st) name os').
+  { intros os' Hp. destruct (del_all_spec name st B) as [B1 [F1 [A1 [A2 _]]]]. split; [exact B1|]. split; [exact F1|].
+    unfold nf_name. destruct F1 as [F1 _]. rewrite F1, Hp. auto. }
+  unfold set_balancer. destruct os as [s|]; [|apply Hdel; reflexivity].
+  destruct (sv_lb s) eqn:Elb; cbn [negb]; [|apply Hdel; cbn [plan]; rewrite Elb; reflexivity].
+  destruct (s_cfg st) as [cfg|] eqn:Ec.
+  2:{ split; [exact B|]. split; [apply frame_refl|]. unfold nf_name. rewrite Ec. cbn [plan]. rewrite Elb. apply (k_cfg _ B Ec). }
+  destruct (sv_ips s) as [[|x r]|] eqn:Ei; try (apply Hdel; cbn [plan]; rewrite Elb, Ei; reflexivity).
+  destruct (pool_for cfg (x :: r)) as [p|] eqn:Ep; [|apply Hdel; cbn [plan]; rewrite Elb, Ei, Ep; reflexivity].
+  set (ips := x :: r) in *.
+  assert (Hnd : NoDup ips).
+  { specialize (Hsvc s eq_refl). unfold svc_ok in Hsvc. rewrite Ei in Hsvc. apply nodup_ips_spec. exact Hsvc. }
+  set (st1 := match s_ips st name with Some old => if compare_ips ips old then st else del_all name st | None => st end).
+  assert (H1 : Bk st1 /\ frame name st st1 /\ pre_ips name ips st1).
+  { unfold st1. destruct (s_ips st name) as [old|] eqn:Eo.
+    - destruct (compare_ips ips old) eqn:Ecmp.
+      + split; [exact B|]. split; [apply frame_refl|]. intros old' Ho'. rewrite Eo in Ho'. injection Ho' as <-.
+        apply compare_ips_spec; assumption.
+      + destruct (del_all_spec name st B) as [B1 [F1 [_ [_ I1]]]]. split; [exact B1|]. split; [exact F1|].
+        intros old' Ho'. congruence.
+    - split; [exact B|]. split; [apply frame_refl|]. intros old' Ho'. congruence. }
+  destruct H1 as [B1 [F1 P1]].
+  assert (Hc1 : s_cfg st1 = Some cfg) by (destruct F1 as [F1 _]; congruence).
+  destruct (handle_spec PBgp name ips s p st1 B1 P1 ltac:(discriminate) ltac:(congruence) ltac:(discriminate))
+    as [B2 [F2 [P2 [A2 [T2 _]]]]].
+  set (st2 := handle ev PBgp name ips s p st1) in *.
+  assert (Hc2 : s_cfg st2 = Some cfg) by (destruct F2 as [F2 _]; congruence).
+  assert (Hifs : PL2 = PL2 -> should_of PL2 st2 p s ips = true -> match_ifs (ip_adv_for me (pl_l2 p)) (en_ifs ev) = true).
+  { intros _ Hs. apply l2_should_selects in Hs.
+    assert (Hin : In p (cf_pools cfg)).
+    { unfold pool_for, ips in Ep. apply find_some in Ep. tauto. }
+    pose proof (Hgood cfg Ec) as Hg. unfold cfg_ifs_ok in Hg. rewrite forallb_forall in Hg. specialize (Hg p Hin).
+    unfold pool_ifs_ok in Hg. fold me in Hg. rewrite Hs in Hg. exact Hg. }
+  destruct (handle_spec PL2 name ips s p st2 B2 P2 ltac:(discriminate) ltac:(congruence) Hifs)
+    as [B3 [F3 [P3 [A3 [T3 [O3 O3']]]]]].
+  set (st3 := handle ev PL2 name ips s p st2) in *.
+  pose proof (frame_trans _ _ _ _ F1 F2) as F12. pose proof (frame_trans _ _ _ _ F12 F3) as F13.
+  split; [exact B3|]. split; [exact F13|].
+  unfold nf_name. destruct F13 as [Fc _]. rewrite Fc, Ec. cbn [plan]. rewrite Elb, Ei. unfold ips at 1. cbv beta iota. fold ips. rewrite Ep.
+  rewrite (should_of_frame name st2 st3 PBgp p s ips F3), (should_of_frame name st2 st3 PL2 p s ips F3).
+  sp. split; [rewrite O3, A2; symmetry; apply (should_of_frame name st1 st2 PBgp p s ips F2)|].
+  split; [exact A3|]. split; [|exact T3].
+  intros Hs. unfold target. rewrite O3'. apply T2. rewrite <- (should_of_frame name st1 st2 PBgp p s ips F2). exact Hs.
+Qed.
+
+(* ---------------------------------------------------------------- the cluster list *)
+Definition knodup (K : cluster) : Prop := NoDup (map fst K).
+Definition Kok (K : cluster) : Prop := forall n s, In (n, s) K -> svc_ok s = true.
+
+Lemma klookup_none K name : klookup K name = None <-> ~ In name (map fst K).
+Proof.
+  unfold klookup. destruct (find (fun x => fst x =? name) K) as [x|] eqn:F.
+  - apply find_some in F. destruct F as [Hin He]. apply N.eqb_eq in He. split; [discriminate|].
+    intros H. exfalso. apply H. rewrite <- He. apply in_map. exact Hin.
+  - split; [intros _|reflexivity]. intros Hin. apply in_map_iff in Hin. destruct Hin as [x [Hx Hin]].
+    pose proof (find_none _ _ F x Hin) as H. cbn in H. rewrite Hx, N.eqb_refl in H. discriminate.
+Qed.
+Lemma klookup_in K name s : knodup K -> (klookup K name = Some s <-> In (name, s) K).
+Proof.
+  unfold knodup, klookup. induction K as [|[n0 s0] K IH]; cbn [find map fst]; intros Hnd.
+  - split; [discriminate|intros []].
+  - inversion Hnd as [|? ? Hn Hr]; subst. cbn [fst]. destruct (N.eqb_spec n0 name) as [->|Hne].
+    + cbn [snd]. split; [intros [= ->]; left; reflexivity|]. intros [[= ->]|Hin]; [reflexivity|].
+      exfalso. apply Hn. change name with (fst (name, s)). apply in_map. exact Hin.
+    + rewrite (IH Hr). split; [intros H; right; exact H|]. intros [[= -> ->]|H]; [contradiction|exact H].
+Qed.
+Lemma in_kdel name K x : In x (kdel name K) <-> In x K /\ fst x <> name.
+Proof. unfold kdel. rewrite filter_In, negb_true_iff, N.eqb_neq. tauto. Qed.
+Lemma knodup_kdel name K : knodup K -> knodup (kdel name K).
+Proof.
+  unfold knodup, kdel. induction K as [|x K IH]; cbn; [auto|]. intros Hnd. inversion Hnd as [|? ? Hn Hr]; subst.
+  destruct (negb (fst x =? name)); cbn; [|apply IH; exact Hr]. constructor; [|apply IH; exact Hr].
+  intros Hin. apply Hn. apply in_map_iff in Hin. destruct Hin as [y [Hy Hin]]. apply filter_In in Hin. rewrite <- Hy. apply in_map. tauto.
+Qed.
+Lemma NoDup_snoc {A} (l : list A) x : NoDup l -> ~ In x l -> NoDup (l ++ [x]).
+Proof.
+  induction l as [|y l IH]; cbn; intros Hnd Hx; [constructor; [tauto|constructor]|].
+  inversion Hnd; subst. constructor.
+  - rewrite in_app_iff. cbn. intuition.
+  - apply IH; [assumption|tauto].
+Qed.
+Lemma knodup_kput name s K : knodup K -> knodup (kput name s K).
+Proof.
+  intros H. unfold kput, knodup. rewrite map_app. cbn. apply NoDup_snoc; [apply (knodup_kdel name K H)|].
+  intros Hin. apply in_map_iff in Hin. destruct Hin as [x [Hx Hin]]. apply in_kdel in Hin. tauto.
+Qed.
+Lemma in_kput name s K x : In x (kput name s K) <-> (In x K /\ fst x <> name) \/ x = (name, s).
+Proof. unfold kput. rewrite in_app_iff, in_kdel. cbn. intuition. Qed.
+
+(* ---------------------------------------------------------------- frames over sets of names *)
+Definition frameS (names : list N) (st st' : sstate) : Prop :=
+  s_cfg st' = s_cfg st /\ s_nodes st' = s_nodes st /\ s_spk st' = s_spk st /\
+  forall n, ~ In n names ->
+    s_annb st' n = s_annb st n /\ s_annl st' n = s_annl st n /\ s_ips st' n = s_ips st n /\
+    bs_ads (s_bgp st') n = bs_ads (s_bgp st) n /\ s_l2 st' n = s_l2 st n.
+
+Lemma frame_frameS name a b : frame name a b -> frameS [name] a b.
+Proof. intros [H1 [H2 [H3 H4]]]. repeat split; auto; apply H4; intros ->; apply H; left; reflexivity. Qed.
+Lemma frameS_refl a : frameS [] a a.
+Proof. unfold frameS. auto 10. Qed.
+Lemma frameS_trans l1 l2 a b c : frameS l1 a b -> frameS l2 b c -> frameS (l1 ++ l2) a c.
+Proof.
+  intros [A1 [A2 [A3 A4]]] [B1 [B2 [B3 B4]]]. repeat split; try congruence;
+    (assert (H1 : ~ In n l1) by (intros X; apply H; apply in_or_app; left; exact X));
+    (assert (H2 : ~ In n l2) by (intros X; apply H; apply in_or_app; right; exact X));
+    destruct (A4 n H1) as [? [? [? [? ?]]]]; destruct (B4 n H2) as [? [? [? [? ?]]]]; congruence.
+Qed.
+
+Lemma nf_frameS names a b name os : frameS names a b -> ~ In name names -> nf_name a name os -> nf_name b name os.
+Proof.
+  intros [H1 [H2 [H3 H4]]] Hn. destruct (H4 name Hn) as [E1 [E2 [_ [E4 E5]]]].
+  unfold nf_name. rewrite H1. destruct (plan (s_cfg a) os) as [[[s ips] p]|]; [|congruence].
+  unfold should_of, target. rewrite H2, H3, E1, E2, E4, E5. tauto.
+Qed.
+
+Definition NF (K : cluster) (st : sstate) : Prop := forall name, nf_name st name (klookup K name).
+Definition Dinv (K : cluster) (st : sstate) : Prop :=
+  forall name, klookup K name = None -> s_annb st name = false /\ s_annl st name = false.
+
+Lemma cfg_good_frame names a b : frameS names a b -> cfg_good a -> cfg_good b.
+Proof. intros [H1 _] G c Hc. apply G. congruence. Qed.
+
+Lemma resync_spec K : forall st,
+  Bk st -> cfg_good st -> Kok K ->
+  Bk (resync ev K st) /\ frameS (map fst K) st (resync ev K st) /\
+  (knodup K -> forall name s, In (name, s) K -> nf_name (resync ev K st) name (Some s)).
+Proof.
+  induction K as [|[n0 s0] K IH]; intros st B G Hok; cbn [resync fold_left map fst snd].
+  - split; [exact B|]. split; [apply frameS_refl|]. intros _ name s [].
+  - destruct (set_balancer_spec n0 (Some s0) st B G) as [B1 [F1 N1]].
+    { intros s [= <-]. apply (Hok n0 s0). left. reflexivity. }
+    set (st1 := set_balancer ev n0 (Some s0) st) in *. apply frame_frameS in F1.
+    destruct (IH st1 B1 (cfg_good_frame _ _ _ F1 G)) as [B2 [F2 N2]].
+    { intros n s H. apply (Hok n s). right. exact H. }
+    fold (resync ev K st1). split; [exact B2|]. split; [apply (frameS_trans [n0] (map fst K) _ _ _ F1 F2)|].
+    intros Hnd name s [[= -> ->]|Hin].
+    + inversion Hnd; subst. apply (nf_frameS (map fst K) st1); assumption.
+    + inversion Hnd; subst. apply N2; assumption.
+Qed.
+
+Lemma resync_NF K st :
+  Bk st -> cfg_good st -> Kok K -> knodup K -> Dinv K st ->
+  Bk (resync ev K st) /\ NF K (resync ev K st) /\ Dinv K (resync ev K st) /\
+  s_cfg (resync ev K st) = s_cfg st /\ s_nodes (resync ev K st) = s_nodes st /\ s_spk (resync ev K st) = s_spk st.
+Proof.
+  intros B G Hok Hnd D. destruct (resync_spec K st B G Hok) as [B1 [F1 N1]].
+  assert (D1 : Dinv K (resync ev K st)).
+  { intros name Hn. pose proof Hn as Hn'. apply klookup_none in Hn'. destruct F1 as [_ [_ [_ F4]]].
+    destruct (F4 name Hn') as [E1 [E2 _]]. rewrite E1, E2. apply D. exact Hn. }
+  split; [exact B1|]. split; [|split; [exact D1|destruct F1 as [? [? [? _]]]; auto]].
+  intros name. destruct (klookup K name) as [s|] eqn:E.
+  - apply N1; [exact Hnd|]. apply klookup_in; assumption.
+  - unfold nf_name. destruct (plan _ None) eqn:Ep; [discriminate|]. apply D1. exact E.
+Qed.
+
+(* ---------------------------------------------------------------- SetConfig / SetNode *)
+Definition pn_same (a b : sstate) : Prop :=
+  forall n, s_annb b n = s_annb a n /\ s_annl b n = s_annl a n /\ s_ips b n = s_ips a n /\
+            bs_ads (s_bgp b) n = bs_ads (s_bgp a) n /\ s_l2 b n = s_l2 a n.
+
+Lemma find_put n nodes k : find_node k (put_node n nodes) = if nd_id n =? k then Some n else find_node k nodes.
+Proof.
+  unfold find_node. induction nodes as [|x r IH]; cbn [put_node find].
+  - destruct (nd_id n =? k); reflexivity.
+  - destruct (N.eqb_spec (nd_id x) (nd_id n)) as [E|E]; cbn [find].
+    + destruct (N.eqb_spec (nd_id n) k) as [E'|E']; [reflexivity|].
+      destruct (N.eqb_spec (nd_id x) k); [congruence|reflexivity].
+    + destruct (N.eqb_spec (nd_id x) k) as [E'|E'].
+      * destruct (N.eqb_spec (nd_id n) k); [congruence|reflexivity].
+      * exact IH.
+Qed.
+
+Lemma map_put {B} (f : nodeinfo -> B) n nodes old :
+  find_node (nd_id n) nodes = Some old -> f old = f n -> map f (put_node n nodes) = map f nodes.
+Proof.
+  unfold find_node. induction nodes as [|x r IH]; cbn [put_node find map]; [discriminate|].
+  destruct (N.eqb_spec (nd_id x) (nd_id n)) as [E|E].
+  - intros [= <-] Hf. cbn [map]. congruence.
+  - intros H Hf. cbn [map]. f_equal. apply IH; assumption.
+Qed.
+
+Lemma set_config_spec c st :
+  Bk st ->
+  (snd (set_config ev c st) = false -> fst (set_config ev c st) = st) /\
+  (snd (set_config ev c st) = true ->
+     Bk (fst (set_config ev c st)) /\ pn_same st (fst (set_config ev c st)) /\
+     s_cfg (fst (set_config ev c st)) = Some c /\ s_nodes (fst (set_config ev c st)) = s_nodes st /\
+     s_spk (fst (set_config ev c st)) = s_spk st /\ s_ipkeys (fst (set_config ev c st)) = s_ipkeys st).
+Proof.
+  intros [K1 K2 K3 K3' K4 K5 K6]. unfold set_config. destruct (existsb _ (s_ipkeys st)); cbn [fst snd].
+  - split; [reflexivity|discriminate].
+  - split; [discriminate|]. intros _. unfold pn_same. sp. split; [|split; [intros n; rewrite bcfg_ads; auto|auto]].
+    constructor; sp; auto.
+    + intros n. rewrite bcfg_ads. apply K1.
+    + discriminate.
+    + destruct K6 as [bevs [I [H1 H2]]]. exists (bevs ++ [BCfg (cf_peers c)]). split; [apply (binv_step me bevs _ (BCfg (cf_peers c)) I)|].
+      rewrite last_cfg_snoc, last_labels_snoc. split; [reflexivity|exact H2].
+Qed.
+
+Lemma set_node_spec n st :
+  Bk st ->
+  Bk (fst (set_node ev n st)) /\ pn_same st (fst (set_node ev n st)) /\
+  s_cfg (fst (set_node ev n st)) = s_cfg st /\ s_nodes (fst (set_node ev n st)) = put_node n (s_nodes st) /\
+  s_spk (fst (set_node ev n st)) = s_spk st /\ s_ipkeys (fst (set_node ev n st)) = s_ipkeys st.
+Proof.
+  intros [K1 K2 K3 K3' K4 K5 K6]. unfold set_node, pn_same. cbn [fst]. sp. fold me.
+  split; [|split; [intros k; rewrite bnode_ads; auto|auto]].
+  constructor; sp; auto.
+  - intros k. rewrite bnode_ads. apply K1.
+  - destruct K6 as [bevs [I [H1 H2]]]. exists (bevs ++ [BNode (nd_id n) (nd_labels n)]).
+    split; [apply (binv_step me bevs _ (BNode (nd_id n) (nd_labels n)) I)|].
+    rewrite last_cfg_snoc, last_labels_snoc. split; [exact H1|].
+    unfold my_labels. rewrite find_put. destruct (nd_id n =? me); [reflexivity|exact H2].
+Qed.
+
+Lemma nf_env a b name os :
+  pn_same a b -> s_cfg b = s_cfg a ->
+  (forall P p s ips, should_of P b p s ips = should_of P a p s ips) ->
+  nf_name a name os -> nf_name b name os.
+Proof.
+  intros Hp Hc Hs. destruct (Hp name) as [E1 [E2 [_ [E4 E5]]]]. unfold nf_name. rewrite Hc.
+  destruct (plan (s_cfg a) os) as [[[s ips] p]|]; [|congruence].
+  rewrite !Hs. unfold target. rewrite E1, E2, E4, E5. tauto.
+Qed.
+
+Lemma should_of_put P n st st' p s ips old :
+  s_nodes st' = put_node n (s_nodes st) -> s_spk st' = s_spk st ->
+  find_node (nd_id n) (s_nodes st) = Some old -> nd_unavail old = nd_unavail n -> nd_excl old = nd_excl n ->
+  should_of P st' p s ips = should_of P st p s ips.
+Proof.
+  intros Hn Hs Hf Hu Hx. unfold should_of. rewrite Hn, Hs. destruct P.
+  - unfold bgp_should, bgp_view. rewrite find_put. destruct (N.eqb_spec (nd_id n) (en_me ev)) as [E|E]; [|reflexivity].
+    rewrite <- E, Hf, Hu, Hx. reflexivity.
+  - unfold l2_should, elect_view.
+    rewrite (map_put (fun n0 => {| ni_id := nd_id n0; ni_unavail := nd_unavail n0; ni_excl := nd_excl n0 |}) n (s_nodes st) old Hf).
+    + reflexivity.
+    + unfold find_node in Hf. apply find_some in Hf. destruct Hf as [_ Hid]. apply N.eqb_eq in Hid. congruence.
+Qed.
+
+Lemma put_node_ids n nodes : NoDup (map nd_id nodes) -> NoDup (map nd_id (put_node n nodes)).
+Proof.
+  induction nodes as [|x r IH]; cbn [put_node map]; intros Hnd; [constructor; [intros H; destruct H|constructor]|].
+  inversion Hnd as [|? ? Hx Hr]; subst. destruct (N.eqb_spec (nd_id x) (nd_id n)) as [E|E]; cbn [map].
+  - rewrite <- E. exact Hnd.
+  - constructor; [|apply IH; exact Hr]. intros Hin. apply in_map_iff in Hin. destruct Hin as [y [Hy Hin]].
+    assert (Hy' : In (nd_id y) (map nd_id r) \/ y = n).
+    { clear - Hin. induction r as [|z r IH]; cbn [put_node] in Hin.
+      - destruct Hin as [<-|[]]. right. reflexivity.
+      - destruct (nd_id z =? nd_id n); cbn in Hin.
+        + destruct Hin as [<-|Hin]; [right; reflexivity|left; right; apply in_map; exact Hin].
+        + destruct Hin as [<-|Hin]; [left; left; reflexivity|]. destruct (IH Hin) as [H|H]; [left; right; exact H|right; exact H]. }
+    destruct Hy' as [H| ->]; [apply Hx; rewrite <- Hy; exact H|congruence].
+Qed.
+
+(* ---------------------------------------------------------------- the invariant of a run *)
+Record Inv (K : cluster) (st : sstate) (stale : bool) : Prop := {
+  v_bk : Bk st; v_good : cfg_good st; v_nd : knodup K; v_ok : Kok K; v_d : Dinv K st;
+  v_nodes : NoDup (map nd_id (s_nodes st));
+  v_nf : stale = false -> NF K st
+}.
+
+Lemma klookup_kdel name K n : klookup (kdel name K) n = if n =? name then None else klookup K n.
+Proof.
+  unfold klookup, kdel. induction K as [|x K IH]; cbn [filter find]; [destruct (n =? name); reflexivity|].
+  destruct (N.eqb_spec (fst x) name) as [E|E]; cbn [negb find].
+  - rewrite IH. destruct (N.eqb_spec n name) as [Hn|Hn]; [reflexivity|]. destruct (N.eqb_spec (fst x) n); [congruence|reflexivity].
+  - destruct (N.eqb_spec (fst x) n) as [E'|E'].
+    + destruct (N.eqb_spec n name); [congruence|reflexivity].
+    + exact IH.
+Qed.
+Lemma klookup_app K1 K2 n : klookup (K1 ++ K2) n = match klookup K1 n with Some s => Some s | None => klookup K2 n end.
+Proof.
+  unfold klookup. induction K1 as [|x K IH]; cbn [app find]; [reflexivity|].
+  destruct (fst x =? n); [reflexivity|exact IH].
+Qed.
+Lemma klookup_kput name s K n : klookup (kput name s K) n = if n =? name then Some s else klookup K n.
+Proof.
+  unfold kput. rewrite klookup_app, klookup_kdel. destruct (N.eqb_spec n name) as [->|Hn].
+  - unfold klookup. cbn. rewrite N.eqb_refl. reflexivity.
+  - destruct (klookup K n); [reflexivity|]. unfold klookup. cbn. destruct (N.eqb_spec name n); [congruence|reflexivity].
+Qed.
+
+Lemma Inv_resync K st : 
+  Bk st -> cfg_good st -> knodup K -> Kok K -> Dinv K st -> NoDup (map nd_id (s_nodes st)) ->
+  Inv K (resync ev K st) false.
+Proof.
+  intros B G Hnd Hok D Hn. destruct (resync_NF K st B G Hok Hnd D) as [B1 [N1 [D1 [E1 [E2 E3]]]]].
+  constructor; auto.
+  - intros c Hc. apply G. congruence.
+  - rewrite E2. exact Hn.
+Qed.
+
+Lemma Dinv_pn K a b : pn_same a b -> Dinv K a -> Dinv K b.
+Proof. intros Hp D name Hk. destruct (Hp name) as [E1 [E2 _]]. rewrite E1, E2. apply D. exact Hk. Qed.
+
+Lemma Inv_step K st stale e :
+  event_ok ev e = true -> Inv K st stale ->
+  Inv (fst (sstep ev (K, st) e)) (snd (sstep ev (K, st) e))
+      (if requests_resync ev st e then false else stale || first_node_event st K e).
+Proof.
+  intros He [B G Hnd Hok D Hn NFh]. destruct e as [name [s|]|c|n|l|]; cbn [sstep requests_resync first_node_event event_ok fst snd] in *.
+  - (* service add / update *)
+    rewrite orb_false_r. destruct (set_balancer_spec name (Some s) st B G) as [B1 [F1 N1]]; [intros s' [= <-]; exact He|].
+    apply frame_frameS in F1. constructor; auto.
+    + eapply cfg_good_frame; eassumption.
+    + apply knodup_kput. exact Hnd.
+    + intros k s' Hin. apply in_kput in Hin. destruct Hin as [[Hin _]|[= -> ->]]; [apply (Hok k s' Hin)|exact He].
+    + intros k Hk. rewrite klookup_kput in Hk. destruct (N.eqb_spec k name) as [Hkn|Hne]; [discriminate|].
+      destruct F1 as [_ [_ [_ F4]]]. destruct (F4 k) as [E1 [E2 _]]; [intros [<-|[]]; congruence|]. rewrite E1, E2. apply D. exact Hk.
+    + destruct F1 as [_ [F2 _]]. rewrite F2. exact Hn.
+    + intros Hs k. rewrite klookup_kput. destruct (N.eqb_spec k name) as [Hkn|Hne]; [rewrite Hkn; exact N1|].
+      apply (nf_frameS [name] st); [exact F1|intros [<-|[]]; congruence|apply NFh; exact Hs].
+  - (* service delete *)
+    rewrite orb_false_r. destruct (set_balancer_spec name None st B G) as [B1 [F1 N1]]; [discriminate|].
+    apply frame_frameS in F1. constructor; auto.
+    + eapply cfg_good_frame; eassumption.
+    + apply knodup_kdel. exact Hnd.
+    + intros k s' Hin. apply in_kdel in Hin. apply (Hok k s'). tauto.
+    + intros k Hk. rewrite klookup_kdel in Hk. destruct (N.eqb_spec k name) as [Hkn|Hne].
+      * rewrite Hkn. unfold nf_name in N1. destruct (plan _ None) eqn:Ep; [discriminate|]. exact N1.
+      * destruct F1 as [_ [_ [_ F4]]]. destruct (F4 k) as [E1 [E2 _]]; [intros [<-|[]]; congruence|]. rewrite E1, E2. apply D. exact Hk.
+    + destruct F1 as [_ [F2 _]]. rewrite F2. exact Hn.
+    + intros Hs k. rewrite klookup_kdel. destruct (N.eqb_spec k name) as [Hkn|Hne]; [rewrite Hkn; exact N1|].
+      apply (nf_frameS [name] st); [exact F1|intros [<-|[]]; congruence|apply NFh; exact Hs].
+  - (* configuration *)
+    destruct (set_config_spec c st B) as [S1 S2]. destruct (set_config ev c st) as [st' ok] eqn:Ec. cbn [fst snd] in *.
+    destruct ok.
+    + destruct (S2 eq_refl) as [B1 [P1 [C1 [C2 [C3 _]]]]]. apply Inv_resync; auto.
+      * intros c' Hc'. rewrite C1 in Hc'. injection Hc' as <-. exact He.
+      * eapply Dinv_pn; eassumption.
+      * rewrite C2. exact Hn.
+    + rewrite (S1 eq_refl). rewrite orb_false_r. constructor; auto.
+  - (* node *)
+    destruct (set_node_spec n st B) as [B1 [P1 [C1 [C2 [C3 _]]]]].
+    unfold set_node in *. cbn [fst snd] in *.
+    set (st' := set_nodes (put_node n (s_nodes st)) (set_bgp (bset_node_gen true (en_me ev) (nd_id n) (nd_labels n) (s_bgp st)) st)) in *.
+    assert (G1 : cfg_good st') by (intros c' Hc'; apply G; congruence).
+    assert (N1 : NoDup (map nd_id (s_nodes st'))) by (rewrite C2; apply put_node_ids; exact Hn).
+    assert (D1 : Dinv K st') by (eapply Dinv_pn; eassumption).
+    destruct (find_node (nd_id n) (s_nodes st)) as [old|] eqn:Ef.
+    + destruct (xorb (nd_unavail old) (nd_unavail n) || xorb (nd_excl old) (nd_excl n)) eqn:Ech.
+      * apply Inv_resync; auto.
+      * rewrite orb_false_r. apply orb_false_iff in Ech. destruct Ech as [Eu Ex].
+        apply xorb_eq in Eu. apply xorb_eq in Ex. constructor; auto.
+        intros Hs k. apply (nf_env st st'); auto.
+        -- intros P p s ips. eapply should_of_put; eassumption.
+        -- apply NFh. exact Hs.
+    + destruct K as [|x K'].
+      * rewrite orb_false_r. constructor; auto.
+      * rewrite orb_true_r. constructor; auto. discriminate.
+  - (* speakers *)
+    apply Inv_resync; auto.
+    + destruct B as [K1 K2 K3 K3' K4 K5 K6]. constructor; sp; auto.
+  - (* re-sync *)
+    apply Inv_resync; auto.
+Qed.
+
+Lemma sinit_Bk spk : Bk (sinit spk).
+Proof.
+  constructor; cbn; auto; try discriminate.
+  exists []. split; [apply binv_init|]. split; reflexivity.
+Qed.
+
+Lemma Inv_init spk : Inv [] (sinit spk) false.
+Proof.
+  constructor.
+  - apply sinit_Bk.
+  - intros c Hc. discriminate.
+  - constructor.
+  - intros n s [].
+  - intros name _. split; reflexivity.
+  - constructor.
+  - intros _ name. cbn. split; reflexivity.
+Qed.
+
+Lemma Inv_run h : forall ws stale,
+  forallb (event_ok ev) h = true -> Inv (fst ws) (snd ws) stale ->
+  Inv (fst (fold_left (sstep ev) h ws)) (snd (fold_left (sstep ev) h ws)) (stale_after ev ws stale h).
+Proof.
+  induction h as [|e h IH]; intros [K st] stale Hok I; cbn [fold_left stale_after]; [exact I|].
+  cbn [forallb] in Hok. apply andb_true_iff in Hok. destruct Hok as [He Hh].
+  apply IH; [exact Hh|]. cbn [fst snd] in *. apply Inv_step; assumption.
+Qed.
+
+(* ---------------------------------------------------------------- a fresh speaker *)
+Lemma put_node_new n acc : ~ In (nd_id n) (map nd_id acc) -> put_node n acc = acc ++ [n].
+Proof.
+  induction acc as [|x r IH]; cbn [put_node map app]; intros H; [reflexivity|].
+  destruct (N.eqb_spec (nd_id x) (nd_id n)) as [E|E]; [exfalso; apply H; left; exact E|].
+  f_equal. apply IH. intros Hin. apply H. right. exact Hin.
+Qed.
+
+Lemma fold_put l : forall acc, NoDup (map nd_id (acc ++ l)) -> fold_left (fun a n => put_node n a) l acc = acc ++ l.
+Proof.
+  induction l as [|n l IH]; intros acc Hnd; cbn [fold_left]; [rewrite app_nil_r; reflexivity|].
+  assert (Hn : ~ In (nd_id n) (map nd_id acc)).
+  { rewrite map_app in Hnd. cbn in Hnd. apply NoDup_remove_2 in Hnd. intros H. apply Hnd. apply in_or_app. left. exact H. }
+  rewrite (put_node_new n acc Hn). rewrite IH; rewrite <- app_assoc; [reflexivity|exact Hnd].
+Qed.
+
+Lemma fold_set_node l : forall a,
+  Bk a ->
+  let r := fold_left (fun a n => fst (set_node ev n a)) l a in
+  Bk r /\ pn_same a r /\ s_cfg r = s_cfg a /\ s_spk r = s_spk a /\ s_ipkeys r = s_ipkeys a /\
+  s_nodes r = fold_left (fun acc n => put_node n acc) l (s_nodes a).
+Proof.
+  induction l as [|n l IH]; intros a B; cbn [fold_left].
+  - split; [exact B|]. split; [intros k; auto|auto].
+  - destruct (set_node_spec n a B) as [B1 [P1 [C1 [C2 [C3 C4]]]]].
+    destruct (IH _ B1) as [B2 [P2 [D1 [D3 [D4 D2]]]]]. cbv zeta in *.
+    split; [exact B2|]. split; [|rewrite D1, D3, D4, D2, C2; auto].
+    intros k. destruct (P1 k) as [? [? [? [? ?]]]]. destruct (P2 k) as [? [? [? [? ?]]]]. repeat split; congruence.
+Qed.
+
+Lemma fresh_spec K st stale :
+  Inv K st stale ->
+  Bk (fresh ev st K) /\ NF K (fresh ev st K) /\
+  s_cfg (fresh ev st K) = s_cfg st /\ s_nodes (fresh ev st K) = s_nodes st /\ s_spk (fresh ev st K) = s_spk st.
+Proof.
+  intros [B G Hnd Hok D Hn _]. unfold fresh.
+  destruct (fold_set_node (s_nodes st) (sinit (s_spk st)) (sinit_Bk _)) as [B1 [P1 [C1 [C3 [C4 C2]]]]]. cbv zeta in *.
+  set (st1 := fold_left (fun a n => fst (set_node ev n a)) (s_nodes st) (sinit (s_spk st))) in *.
+  assert (C2' : s_nodes st1 = s_nodes st).
+  { rewrite C2. cbn [sinit s_nodes]. rewrite fold_put; [reflexivity|exact Hn]. }
+  assert (Hoff : forall k, s_annb st1 k = false /\ s_annl st1 k = false).
+  { intros k. destruct (P1 k) as [E1 [E2 _]]. rewrite E1, E2. split; reflexivity. }
+  destruct (s_cfg st) as [c|] eqn:Ec.
+  - destruct (set_config_spec c st1 B1) as [_ S2].
+    assert (Hacc : snd (set_config ev c st1) = true).
+    { unfold set_config. rewrite C4. reflexivity. }
+    destruct (S2 Hacc) as [B2 [P2 [E1 [E2 [E3 _]]]]].
+    set (st2 := fst (set_config ev c st1)) in *.
+    destruct (resync_NF K st2 B2) as [B3 [N3 [_ [F1 [F2 F3]]]]]; auto.
+    + intros c' Hc'. rewrite E1 in Hc'. injection Hc' as <-. apply G. exact Ec.
+    + intros k _. destruct (P2 k) as [A1 [A2 _]]. rewrite A1, A2. apply Hoff.
+    + split; [exact B3|]. split; [exact N3|]. rewrite F1, F2, F3, E1, E2, E3, C2', C3. auto.
+  - destruct (resync_NF K st1 B1) as [B3 [N3 [_ [F1 [F2 F3]]]]]; auto.
+    + intros c' Hc'. rewrite C1 in Hc'. discriminate.
+    + intros k _. apply Hoff.
+    + split; [exact B3|]. split; [exact N3|]. rewrite F1, F2, F3, C1, C2', C3. auto.
+Qed.
+
+(* ---------------------------------------------------------------- normal form => same announcements *)
+Lemma all_ads_char bevs b ad :
+  binv me bevs b -> (In ad (all_ads b) <-> exists k l, bs_ads b k = Some l /\ In ad l).
+Proof.
+  intros I. rewrite in_all_ads. unfold svc_ads. split.
+  - intros [k [_ H]]. destruct (bs_ads b k) as [l|] eqn:E; [|destruct H]. exists k, l. auto.
+  - intros [k [l [E H]]]. exists k. split; [apply (i_keys _ _ _ I); congruence|]. rewrite E. exact H.
+Qed.
+
+Lemma find_cfg p : forall ps ps',
+  map ps_cfg ps = map ps_cfg ps' ->
+  match find (fun q => pc_name (ps_cfg q) =? p) ps, find (fun q => pc_name (ps_cfg q) =? p) ps' with
+  | Some q, Some q' => ps_cfg q = ps_cfg q' /\ In q ps /\ In q' ps'
+  | None, None => True
+  | _, _ => False
+  end.
+Proof.
+  induction ps as [|x r IH]; intros [|y r']; cbn [map find]; try discriminate; [auto|].
+  intros [= Hc Hr]. rewrite <- Hc. destruct (pc_name (ps_cfg x) =? p).
+  - split; [exact Hc|split; left; reflexivity].
+  - specialize (IH r' Hr). destruct (find _ r), (find _ r'); try contradiction; [|exact I].
+    destruct IH as [? [? ?]]. split; [assumption|split; right; assumption].
+Qed.
+
+Lemma sess_equiv bevs bevs' b b' p :
+  binv me bevs b -> binv me bevs' b' ->
+  last_cfg bevs = last_cfg bevs' -> last_labels me bevs = last_labels me bevs' ->
+  (forall n, bs_ads b n = bs_ads b' n) ->
+  opt_set_equiv (sess_of b p) (sess_of b' p).
+Proof.
+  intros Ib Ib' Hc Hl Hads. unfold sess_of.
+  pose proof (find_cfg p (bs_peers b) (bs_peers b')) as H.
+  rewrite (i_cfg _ _ _ Ib), (i_cfg _ _ _ Ib'), Hc in H. specialize (H eq_refl).
+  destruct (find _ (bs_peers b)) as [q|], (find _ (bs_peers b')) as [q'|]; try contradiction; [|exact I].
+  destruct H as [Hq [Hin Hin']].
+  pose proof (i_live _ _ _ Ib q Hin) as L. pose proof (i_live _ _ _ Ib' q' Hin') as L'.
+  rewrite (i_labels _ _ _ Ib) in L. rewrite (i_labels _ _ _ Ib'), <- Hl, <- Hq in L'. unfold live in *.
+  destruct (ps_sess q) as [l|] eqn:E, (ps_sess q') as [l'|] eqn:E'; cbn.
+  - intros x. rewrite (i_fresh _ _ _ Ib q l Hin E), (i_fresh _ _ _ Ib' q' l' Hin' E'), Hq. unfold ads_for_peer.
+    rewrite !filter_In, (all_ads_char _ _ x Ib), (all_ads_char _ _ x Ib').
+    split; intros [[k [l0 [Hk Hx]]] Hm]; (split; [exists k, l0; split; [congruence|exact Hx]|exact Hm]).
+  - assert (X : @None (list adv) <> None) by (apply L'; apply L; discriminate). congruence.
+  - assert (X : @None (list adv) <> None) by (apply L; apply L'; discriminate). congruence.
+  - exact I.
+Qed.
+
+Lemma equiv_of_NF K a b :
+  Bk a -> Bk b -> NF K a -> NF K b ->
+  s_cfg a = s_cfg b -> s_nodes a = s_nodes b -> s_spk a = s_spk b ->
+  announced_equiv a b.
+Proof.
+  intros Ba Bb Na Nb Hc Hn Hs.
+  assert (Hsh : forall P p s ips, should_of P a p s ips = should_of P b p s ips).
+  { intros. unfold should_of. rewrite Hn, Hs. reflexivity. }
+  assert (Hper : forall name, bs_ads (s_bgp a) name = bs_ads (s_bgp b) name /\ opt_set_equiv (s_l2 a name) (s_l2 b name)).
+  { intros name. specialize (Na name). specialize (Nb name). unfold nf_name in Na, Nb. rewrite <- Hc in Nb.
+    destruct (plan (s_cfg a) (klookup K name)) as [[[s ips] p]|].
+    - rewrite <- !Hsh in Nb. destruct Na as [A1 [A2 [A3 A4]]]. destruct Nb as [B1 [B2 [B3 B4]]]. split.
+      + destruct (should_of PBgp a p s ips).
+        * specialize (A3 eq_refl). specialize (B3 eq_refl). unfold target in *. congruence.
+        * rewrite (k_b _ Ba name A1), (k_b _ Bb name B1). reflexivity.
+      + destruct (should_of PL2 a p s ips).
+        * destruct (A4 eq_refl) as [e1 [E1 H1]]. destruct (B4 eq_refl) as [e2 [E2 H2]]. rewrite E1, E2. cbn.
+          intros x. rewrite H1, H2. tauto.
+        * rewrite (k_l _ Ba name A2), (k_l _ Bb name B2). exact I.
+    - destruct Na as [A1 A2]. destruct Nb as [B1 B2]. split.
+      + rewrite (k_b _ Ba name A1), (k_b _ Bb name B1). reflexivity.
+      + rewrite (k_l _ Ba name A2), (k_l _ Bb name B2). exact I. }
+  split; [intros name; apply Hper|].
+  intros p. destruct (k_bg _ Ba) as [bevs [I1 [C1 L1]]]. destruct (k_bg _ Bb) as [bevs' [I2 [C2 L2]]].
+  apply (sess_equiv bevs bevs'); auto; try congruence. intros n. apply Hper.
+Qed.
+
+(* ---------------------------------------------------------------- the theorems *)
+Lemma resync_normal_form K st stale :
+  Inv K st stale ->
+  announced_equiv (resync ev K st) (fresh ev st K).
+Proof.
+  intros V. pose proof V as [B G Hnd Hok D Hn _].
+  destruct (resync_NF K st B G Hok Hnd D) as [B1 [N1 [_ [E1 [E2 E3]]]]].
+  destruct (fresh_spec K st stale V) as [B2 [N2 [F1 [F2 F3]]]].
+  apply (equiv_of_NF K); auto; congruence.
+Qed.
+
+Lemma history_independent_partial spk h :
+  forallb (event_ok ev) h = true ->
+  stale_after ev ([], sinit spk) false h = false ->
+  announced_equiv (snd (srun ev spk h)) (fresh ev (snd (srun ev spk h)) (fst (srun ev spk h))).
+Proof.
+  intros Hok Hst. pose proof (Inv_run h ([], sinit spk) false Hok (Inv_init spk)) as V. rewrite Hst in V.
+  fold (srun ev spk h) in V. destruct (fresh_spec _ _ _ V) as [B2 [N2 [F1 [F2 F3]]]].
+  apply (equiv_of_NF (fst (srun ev spk h))); auto.
+  - apply (v_bk _ _ _ V).
+  - apply (v_nf _ _ _ V). reflexivity.
+Qed.
+
+(* any reachable state: a full re-sync brings the speaker to the fresh speaker's announcements *)
+Lemma resync_normal_form_run spk h :
+  forallb (event_ok ev) h = true ->
+  let ws := srun ev spk h in
+  announced_equiv (resync ev (fst ws) (snd ws)) (fresh ev (snd ws) (fst ws)).
+Proof.
+  intros Hok. cbv zeta. pose proof (Inv_run h ([], sinit spk) false Hok (Inv_init spk)) as V.
+  fold (srun ev spk h) in V. eapply resync_normal_form. exact V.
+Qed.
+
+(* nothing remains announced for a service that is gone / not a LoadBalancer /
+   without address / outside the pools, once it was processed *)
+Lemma nothing_for_gone_service spk h name os :
+  forallb (event_ok ev) (h ++ [ESvc name os]) = true ->
+  plan (s_cfg (snd (srun ev spk (h ++ [ESvc name os])))) os = None ->
+  let st := snd (srun ev spk (h ++ [ESvc name os])) in
+  s_l2 st name = None /\ bs_ads (s_bgp st) name = None.
+Proof.
+  intros Hok Hp. cbv zeta. unfold srun in *. rewrite fold_left_app in *. cbn [fold_left] in *.
+  rewrite forallb_app in Hok. apply andb_true_iff in Hok. destruct Hok as [Hok1 Hok2].
+  pose proof (Inv_run h ([], sinit spk) false Hok1 (Inv_init spk)) as V.
+  destruct (fold_left (sstep ev) h ([], sinit spk)) as [K st] eqn:E. cbn [fst snd] in V.
+  destruct V as [B G _ _ _ _ _].
+  assert (Hs : forall s, os = Some s -> svc_ok s = true).
+  { intros s ->. cbn in Hok2. rewrite andb_true_r in Hok2. exact Hok2. }
+  destruct (set_balancer_spec name os st B G Hs) as [B1 [_ N1]].
+  assert (Est : snd (sstep ev (K, st) (ESvc name os)) = set_balancer ev name os st) by (destruct os; reflexivity).
+  rewrite Est in *. unfold nf_name in N1. rewrite Hp in N1. destruct N1 as [A1 A2].
+  split; [apply (k_l _ B1 name A2)|apply (k_b _ B1 name A1)].
+Qed.
+
+(* SetConfig refusal: a configuration that orphans a recorded address changes nothing *)
+Lemma setconfig_refusal c st :
+  snd (set_config ev c st) = false -> fst (set_config ev c st) = st.
+Proof. unfold set_config. destruct (existsb _ _); cbn; [reflexivity|discriminate]. Qed.
+
+End S.
